@@ -38,6 +38,14 @@ theorem patch_result_verified (md5 : Bytes → Bytes) (p : Patch) (base out : By
 theorem rle_length (c : Bytes) (size : Nat) (skip : Bool) (out : Bytes) (h : rleDecompress c size skip = some out) :
     out.length = size := Chain.rle_length c size skip out h
 
+/-- whatever a patch header declares, the RLE stage yields at most 128 bytes per byte of patch data … -/
+theorem rle_output_bounded (c : Bytes) (size : Nat) (skip : Bool) (out : Bytes)
+    (h : rleDecompress c size skip = some out) : out.length ≤ 128 * c.length := Chain.rle_output_bounded c size skip out h
+
+/-- … and so does a whole BSD0 patch: the patched file is never longer than 128 bytes per byte of patch data -/
+theorem bsd0_output_bounded (p : Patch) (base out : Bytes) (h : applyBsd0 p base = some out) :
+    out.length ≤ 128 * p.data.length := Chain.bsd0_output_bounded p base out h
+
 /-! non-vacuity: a history with ties and a re-prioritisation; the winner of a lookup -/
 example : ((run [.add 0 0, .add 1 5, .add 2 5, .setPriority 1 5, .add 3 (-1)]).entries.map (·.id)) = [2, 1, 0, 3] := by decide
 example : (lookup (fun id _ => id != 2) (run [.add 0 0, .add 1 5, .add 2 5]) 7).map (·.id) = some 1 := by decide
